@@ -29,6 +29,10 @@ def configs(tier, seed):
       i += 1
       for st in sts:
         cfgs.append(dict(name='max%d/fc%d/%s' % (mx, fc, st), max=mx, fc=fc, strategy=st))
+  # the same limits configured through a per-instance section ([cache:b]) overriding other values in [cache]
+  for (mx, fc, base) in ((3, True, dict(MAX_CACHE_SIZE=50, USE_FLOW_CONTROL=False)), (4, False, dict(MAX_CACHE_SIZE=4, USE_FLOW_CONTROL=True)),
+                         (2, True, dict()), (5, False, dict(MAX_CACHE_SIZE='inf'))):
+    cfgs.append(dict(name='instance/max%d/fc%d' % (mx, fc), max=mx, fc=fc, strategy='sorted', instance='b', base=base))
   return cfgs
 
 
@@ -88,7 +92,17 @@ def oracle(h, world):
 
 def run_config(cfg, res):
   from vlib import boot, cachesim, sched as S
-  ns = boot.boot('carbon-cache', {'CACHE_WRITE_STRATEGY': cfg['strategy'], 'MAX_CACHE_SIZE': cfg['max'], 'USE_FLOW_CONTROL': cfg['fc']})
+  if cfg.get('instance'):
+    base = dict(cfg['base'])
+    base['CACHE_WRITE_STRATEGY'] = cfg['strategy']
+    over = {}
+    if base.get('MAX_CACHE_SIZE') != cfg['max']:
+      over['MAX_CACHE_SIZE'] = cfg['max']
+    if base.get('USE_FLOW_CONTROL', True) != cfg['fc']:
+      over['USE_FLOW_CONTROL'] = cfg['fc']
+    ns = boot.boot('carbon-cache', base, instance=cfg['instance'], instance_conf=over or {'MAX_CACHE_SIZE': cfg['max']})
+  else:
+    ns = boot.boot('carbon-cache', {'CACHE_WRITE_STRATEGY': cfg['strategy'], 'MAX_CACHE_SIZE': cfg['max'], 'USE_FLOW_CONTROL': cfg['fc']})
   world = cachesim.World(ns)
   exp_hard = cfg['max'] * 1.05 if cfg['fc'] else cfg['max']
   if abs(world.hard_max - exp_hard) > 1e-9:
